@@ -115,50 +115,50 @@ func c20Replay(c *Ctx) {
 // ---------------------------------------------------------------------------
 
 const (
-	itNum = iota
-	itRange
-	itRangeStep
-	itStarStep
-	itLast
-	itLastW
-	itNth
+	c20itNum = iota
+	c20itRange
+	c20itRangeStep
+	c20itStarStep
+	c20itLast
+	c20itLastW
+	c20itNth
 )
 
-type cItem struct {
+type c20Item struct {
 	T       int
 	A, B, S int
 }
 
-type cField struct {
+type c20Field struct {
 	Star  bool
-	Items []cItem
+	Items []c20Item
 }
 
-type cSpec struct{ F [5]cField } // minute hour day month weekday
+type c20Spec struct{ F [5]c20Field } // minute hour day month weekday
 
 var c20lo = [5]int{0, 0, 1, 1, 1}
 var c20hi = [5]int{59, 23, 31, 12, 7}
 
-func (it cItem) String() string {
+func (it c20Item) String() string {
 	switch it.T {
-	case itNum:
+	case c20itNum:
 		return strconv.Itoa(it.A)
-	case itRange:
+	case c20itRange:
 		return fmt.Sprintf("%d-%d", it.A, it.B)
-	case itRangeStep:
+	case c20itRangeStep:
 		return fmt.Sprintf("%d-%d/%d", it.A, it.B, it.S)
-	case itStarStep:
+	case c20itStarStep:
 		return fmt.Sprintf("*/%d", it.S)
-	case itLast:
+	case c20itLast:
 		return "L"
-	case itLastW:
+	case c20itLastW:
 		return fmt.Sprintf("%dL", it.A)
 	default:
 		return fmt.Sprintf("%d#%d", it.A, it.B)
 	}
 }
 
-func (f cField) String() string {
+func (f c20Field) String() string {
 	if f.Star {
 		return "*"
 	}
@@ -169,7 +169,7 @@ func (f cField) String() string {
 	return strings.Join(p, ",")
 }
 
-func (s cSpec) String() string {
+func (s c20Spec) String() string {
 	var p []string
 	for _, f := range s.F {
 		p = append(p, f.String())
@@ -178,28 +178,28 @@ func (s cSpec) String() string {
 }
 
 // validity of the grammar, written from the documentation of the format (not from the model)
-func (it cItem) valid(k int) bool {
+func (it c20Item) valid(k int) bool {
 	lo, hi := c20lo[k], c20hi[k]
 	in := func(v int) bool { return v >= lo && v <= hi }
 	switch it.T {
-	case itNum:
+	case c20itNum:
 		return in(it.A)
-	case itRange:
+	case c20itRange:
 		return in(it.A) && in(it.B) && it.A <= it.B
-	case itRangeStep:
+	case c20itRangeStep:
 		return k <= 2 && in(it.A) && in(it.B) && it.A <= it.B && it.S >= 1 && it.S <= hi
-	case itStarStep:
+	case c20itStarStep:
 		return k != 4 && it.S >= 1 && it.S <= hi
-	case itLast:
+	case c20itLast:
 		return k == 2
-	case itLastW:
+	case c20itLastW:
 		return k == 4 && it.A >= 1 && it.A <= 7
 	default:
 		return k == 4 && it.A >= 1 && it.A <= 7 && it.B >= 1 && it.B <= 5
 	}
 }
 
-func (s cSpec) valid() bool {
+func (s c20Spec) valid() bool {
 	for k, f := range s.F {
 		if f.Star {
 			continue
@@ -247,32 +247,32 @@ func c20step(r *Rng, k int) int {
 	}
 }
 
-func c20item(r *Rng, k int) cItem {
+func c20item(r *Rng, k int) c20Item {
 	for {
-		var it cItem
+		var it c20Item
 		switch r.Intn(10) {
 		case 0, 1, 2:
-			it = cItem{T: itNum, A: c20val(r, k)}
+			it = c20Item{T: c20itNum, A: c20val(r, k)}
 		case 3, 4:
 			a, b := c20val(r, k), c20val(r, k)
 			if a > b {
 				a, b = b, a
 			}
-			it = cItem{T: itRange, A: a, B: b}
+			it = c20Item{T: c20itRange, A: a, B: b}
 		case 5:
 			a, b := c20val(r, k), c20val(r, k)
 			if a > b {
 				a, b = b, a
 			}
-			it = cItem{T: itRangeStep, A: a, B: b, S: c20step(r, k)}
+			it = c20Item{T: c20itRangeStep, A: a, B: b, S: c20step(r, k)}
 		case 6:
-			it = cItem{T: itStarStep, S: c20step(r, k)}
+			it = c20Item{T: c20itStarStep, S: c20step(r, k)}
 		case 7:
-			it = cItem{T: itLast}
+			it = c20Item{T: c20itLast}
 		case 8:
-			it = cItem{T: itLastW, A: 1 + r.Intn(7)}
+			it = c20Item{T: c20itLastW, A: 1 + r.Intn(7)}
 		default:
-			it = cItem{T: itNth, A: 1 + r.Intn(7), B: 1 + r.Intn(5)}
+			it = c20Item{T: c20itNth, A: 1 + r.Intn(7), B: 1 + r.Intn(5)}
 		}
 		if it.valid(k) {
 			return it
@@ -280,9 +280,9 @@ func c20item(r *Rng, k int) cItem {
 	}
 }
 
-func c20field(r *Rng, k int, starP int) cField {
+func c20field(r *Rng, k int, starP int) c20Field {
 	if r.Chance(starP, 100) {
-		return cField{Star: true}
+		return c20Field{Star: true}
 	}
 	n := 1
 	switch r.Intn(8) {
@@ -293,7 +293,7 @@ func c20field(r *Rng, k int, starP int) cField {
 	case 4:
 		n = 4
 	}
-	var f cField
+	var f c20Field
 	for i := 0; i < n; i++ {
 		f.Items = append(f.Items, c20item(r, k))
 	}
@@ -302,18 +302,18 @@ func c20field(r *Rng, k int, starP int) cField {
 
 // a valid spec; the minute/hour/month fields are wildcards more often than the day fields so
 // that the day rule is exercised
-func c20spec(r *Rng) cSpec {
-	var s cSpec
+func c20spec(r *Rng) c20Spec {
+	var s c20Spec
 	s.F[0] = c20field(r, 0, 45)
 	s.F[1] = c20field(r, 1, 45)
 	s.F[3] = c20field(r, 3, 55)
 	switch r.Intn(10) {
 	case 0: // both wildcards
-		s.F[2], s.F[4] = cField{Star: true}, cField{Star: true}
+		s.F[2], s.F[4] = c20Field{Star: true}, c20Field{Star: true}
 	case 1, 2, 3:
-		s.F[2], s.F[4] = c20field(r, 2, 0), cField{Star: true}
+		s.F[2], s.F[4] = c20field(r, 2, 0), c20Field{Star: true}
 	case 4, 5, 6:
-		s.F[2], s.F[4] = cField{Star: true}, c20field(r, 4, 0)
+		s.F[2], s.F[4] = c20Field{Star: true}, c20field(r, 4, 0)
 	default:
 		s.F[2], s.F[4] = c20field(r, 2, 0), c20field(r, 4, 0)
 	}
@@ -322,7 +322,7 @@ func c20spec(r *Rng) cSpec {
 
 // c20specAround adapts a generated spec so that its day fields sit on the boundaries around instant t:
 // weekday items take t's weekday, w#n the occurrence of t's day (or a neighbour), day numbers t's day (or a neighbour)
-func c20specAround(r *Rng, t time.Time) cSpec {
+func c20specAround(r *Rng, t time.Time) c20Spec {
 	s := c20spec(r)
 	wd := c20cronWd(t)
 	occ := (t.Day()-1)/7 + 1
@@ -340,9 +340,9 @@ func c20specAround(r *Rng, t time.Time) cSpec {
 			it := &s.F[4].Items[i]
 			if r.Chance(2, 3) {
 				switch it.T {
-				case itNum, itLastW:
+				case c20itNum, c20itLastW:
 					it.A = wd
-				case itNth:
+				case c20itNth:
 					it.A = wd
 					it.B = clip(occ+r.Intn(3)-1, 1, 5)
 				}
@@ -352,7 +352,7 @@ func c20specAround(r *Rng, t time.Time) cSpec {
 	if !s.F[2].Star {
 		for i := range s.F[2].Items {
 			it := &s.F[2].Items[i]
-			if it.T == itNum && r.Chance(1, 2) {
+			if it.T == c20itNum && r.Chance(1, 2) {
 				it.A = clip(t.Day()+r.Intn(3)-1, 1, 31)
 			}
 		}
@@ -362,19 +362,19 @@ func c20specAround(r *Rng, t time.Time) cSpec {
 
 // c20force makes the weekday field (mode 0, 1) or the day field (mode 2) of s carry the special item that has its
 // boundary at t: wL / w#n with t's weekday, L
-func c20force(r *Rng, s cSpec, t time.Time, mode int) cSpec {
+func c20force(r *Rng, s c20Spec, t time.Time, mode int) c20Spec {
 	wd := c20cronWd(t)
-	put := func(f cField, it cItem) cField {
+	put := func(f c20Field, it c20Item) c20Field {
 		if f.Star || len(f.Items) == 0 {
-			return cField{Items: []cItem{it}}
+			return c20Field{Items: []c20Item{it}}
 		}
-		items := append([]cItem{}, f.Items...)
+		items := append([]c20Item{}, f.Items...)
 		items[r.Intn(len(items))] = it
-		return cField{Items: items}
+		return c20Field{Items: items}
 	}
 	switch mode {
 	case 0:
-		s.F[4] = put(s.F[4], cItem{T: itLastW, A: wd})
+		s.F[4] = put(s.F[4], c20Item{T: c20itLastW, A: wd})
 	case 1:
 		occ := (t.Day()-1)/7 + 1 + r.Intn(3) - 1
 		if occ < 1 {
@@ -383,12 +383,12 @@ func c20force(r *Rng, s cSpec, t time.Time, mode int) cSpec {
 		if occ > 5 {
 			occ = 5
 		}
-		s.F[4] = put(s.F[4], cItem{T: itNth, A: wd, B: occ})
+		s.F[4] = put(s.F[4], c20Item{T: c20itNth, A: wd, B: occ})
 	default:
-		s.F[2] = put(s.F[2], cItem{T: itLast})
+		s.F[2] = put(s.F[2], c20Item{T: c20itLast})
 	}
 	if mode < 2 && r.Chance(1, 2) {
-		s.F[2] = cField{Star: true} // the weekday field alone decides
+		s.F[2] = c20Field{Star: true} // the weekday field alone decides
 	}
 	return s
 }
@@ -427,53 +427,53 @@ func (z *c20zones) sweep(r *Rng) (dst []c20anchor, ends []c20anchor) {
 }
 
 // an AST invalid in exactly one place
-func c20invalidSpec(r *Rng) (cSpec, string) {
+func c20invalidSpec(r *Rng) (c20Spec, string) {
 	for {
 		s := c20spec(r)
 		k := r.Intn(5)
 		lo, hi := c20lo[k], c20hi[k]
-		var it cItem
+		var it c20Item
 		var why string
 		switch r.Intn(11) {
 		case 0:
-			it, why = cItem{T: itNum, A: hi + 1}, "value max+1"
+			it, why = c20Item{T: c20itNum, A: hi + 1}, "value max+1"
 		case 1:
 			if lo == 0 {
 				continue
 			}
-			it, why = cItem{T: itNum, A: lo - 1}, "value min-1"
+			it, why = c20Item{T: c20itNum, A: lo - 1}, "value min-1"
 		case 2:
 			a := lo + 1 + r.Intn(hi-lo)
-			it, why = cItem{T: itRange, A: a, B: a - 1}, "descending range"
+			it, why = c20Item{T: c20itRange, A: a, B: a - 1}, "descending range"
 		case 3:
-			it, why = cItem{T: itRange, A: c20val(r, k), B: hi + 1}, "range end max+1"
+			it, why = c20Item{T: c20itRange, A: c20val(r, k), B: hi + 1}, "range end max+1"
 		case 4:
-			it, why = cItem{T: itStarStep, S: 0}, "step 0"
+			it, why = c20Item{T: c20itStarStep, S: 0}, "step 0"
 		case 5:
-			it, why = cItem{T: itStarStep, S: hi + 1}, "step max+1"
+			it, why = c20Item{T: c20itStarStep, S: hi + 1}, "step max+1"
 		case 6:
-			it, why = cItem{T: itRangeStep, A: lo, B: hi, S: []int{0, hi + 1}[r.Intn(2)]}, "range step out of bounds"
+			it, why = c20Item{T: c20itRangeStep, A: lo, B: hi, S: []int{0, hi + 1}[r.Intn(2)]}, "range step out of bounds"
 		case 7:
-			it, why = cItem{T: itLast}, "L outside the day field"
+			it, why = c20Item{T: c20itLast}, "L outside the day field"
 		case 8:
-			it, why = cItem{T: itLastW, A: []int{0, 8, 1 + r.Intn(7)}[r.Intn(3)]}, "wL outside the weekday field or w out of 1..7"
+			it, why = c20Item{T: c20itLastW, A: []int{0, 8, 1 + r.Intn(7)}[r.Intn(3)]}, "wL outside the weekday field or w out of 1..7"
 		case 9:
-			it, why = cItem{T: itNth, A: 1 + r.Intn(7), B: []int{0, 6, 1 + r.Intn(5)}[r.Intn(3)]}, "w#n outside the weekday field or n out of 1..5"
+			it, why = c20Item{T: c20itNth, A: 1 + r.Intn(7), B: []int{0, 6, 1 + r.Intn(5)}[r.Intn(3)]}, "w#n outside the weekday field or n out of 1..5"
 		default:
-			it, why = cItem{T: itRangeStep, A: lo, B: hi, S: 2}, "d-d/d in month or weekday"
+			it, why = c20Item{T: c20itRangeStep, A: lo, B: hi, S: 2}, "d-d/d in month or weekday"
 		}
 		if it.valid(k) {
 			continue
 		}
 		f := s.F[k]
 		if f.Star {
-			f = cField{}
+			f = c20Field{}
 		}
 		pos := r.Intn(len(f.Items) + 1)
-		items := append([]cItem{}, f.Items[:pos]...)
+		items := append([]c20Item{}, f.Items[:pos]...)
 		items = append(items, it)
 		items = append(items, f.Items[pos:]...)
-		s.F[k] = cField{Items: items}
+		s.F[k] = c20Field{Items: items}
 		return s, why
 	}
 }
@@ -503,7 +503,7 @@ func c20cronWd(t time.Time) int {
 	return int(t.Weekday())
 }
 
-func (it cItem) matches(k int, t time.Time) bool {
+func (it c20Item) matches(k int, t time.Time) bool {
 	var v int
 	switch k {
 	case 0:
@@ -518,17 +518,17 @@ func (it cItem) matches(k int, t time.Time) bool {
 		v = c20cronWd(t)
 	}
 	switch it.T {
-	case itNum:
+	case c20itNum:
 		return v == it.A
-	case itRange:
+	case c20itRange:
 		return it.A <= v && v <= it.B
-	case itRangeStep:
+	case c20itRangeStep:
 		return it.A <= v && v <= it.B && (v-it.A)%it.S == 0
-	case itStarStep:
+	case c20itStarStep:
 		return (v-c20lo[k])%it.S == 0
-	case itLast:
+	case c20itLast:
 		return t.Day() == c20dim(t)
-	case itLastW:
+	case c20itLastW:
 		// the last weekday w of the month: no later day of this month has the same weekday
 		return c20cronWd(t) == it.A && t.Day()+7 > c20dim(t)
 	default:
@@ -541,7 +541,7 @@ func (it cItem) matches(k int, t time.Time) bool {
 	}
 }
 
-func (f cField) matches(k int, t time.Time) bool {
+func (f c20Field) matches(k int, t time.Time) bool {
 	if f.Star {
 		return true
 	}
@@ -553,7 +553,7 @@ func (f cField) matches(k int, t time.Time) bool {
 	return false
 }
 
-func (s cSpec) matches(t time.Time) bool {
+func (s c20Spec) matches(t time.Time) bool {
 	if !s.F[0].matches(0, t) || !s.F[1].matches(1, t) || !s.F[3].matches(3, t) {
 		return false
 	}
@@ -569,7 +569,7 @@ func (s cSpec) matches(t time.Time) bool {
 }
 
 // values 0..hi the field accepts (for drawing matching instants)
-func (f cField) values(k int) []int {
+func (f c20Field) values(k int) []int {
 	var vs []int
 	for v := c20lo[k]; v <= c20hi[k]; v++ {
 		if f.Star {
@@ -579,13 +579,13 @@ func (f cField) values(k int) []int {
 		for _, it := range f.Items {
 			ok := false
 			switch it.T {
-			case itNum:
+			case c20itNum:
 				ok = v == it.A
-			case itRange:
+			case c20itRange:
 				ok = it.A <= v && v <= it.B
-			case itRangeStep:
+			case c20itRangeStep:
 				ok = it.A <= v && v <= it.B && (v-it.A)%it.S == 0
-			case itStarStep:
+			case c20itStarStep:
 				ok = (v-c20lo[k])%it.S == 0
 			}
 			if ok {
@@ -690,7 +690,7 @@ func (z *c20zones) instant(r *Rng) (int, time.Time, string) {
 }
 
 // steer moves the instant's minute/hour/month into the sets of the spec (keeping the day when possible)
-func c20steer(r *Rng, s cSpec, t time.Time) time.Time {
+func c20steer(r *Rng, s c20Spec, t time.Time) time.Time {
 	l := t.Location()
 	y, mo, d, h, mi := t.Year(), int(t.Month()), t.Day(), t.Hour(), t.Minute()
 	has := func(vs []int, v int) bool {
@@ -765,7 +765,7 @@ func c20parse(r *Result, text string) (spec node.VerifCronSpec, err error) {
 }
 
 type c20k1case struct {
-	spec  cSpec
+	spec  c20Spec
 	text  string
 	impl  node.VerifCronSpec
 	zi    []int
@@ -890,7 +890,7 @@ func c20K1(c *Ctx) {
 func c20K1Exhaustive(c *Ctx, z *c20zones) {
 	r := c.R
 	fixed := []string{"* * L * *", "0 0 * * 7L", "30 2 * * *", "15 9 * * 1#5,5#1", "0 12 29 2 *", "*/7 */5 1-31/3 */2 1-5", "59 23 31 12 7", "0 0 13 * 5"}
-	var specs []cSpec
+	var specs []c20Spec
 	for _, t := range fixed {
 		sp, ok := c20parseText(t)
 		if ok {
@@ -923,7 +923,7 @@ func c20K1Exhaustive(c *Ctx, z *c20zones) {
 			}
 			wg.Add(1)
 			sem <- struct{}{}
-			go func(sp cSpec, text string, zi int, l *time.Location, from, to time.Time) {
+			go func(sp c20Spec, text string, zi int, l *time.Location, from, to time.Time) {
 				defer wg.Done()
 				defer func() { <-sem }()
 				bad := 0
@@ -955,41 +955,41 @@ func c20K1Exhaustive(c *Ctx, z *c20zones) {
 }
 
 // c20parseText reads the canonical text of a spec back into the harness AST (fixed specs of the exhaustive walk)
-func c20parseText(text string) (cSpec, bool) {
-	var s cSpec
+func c20parseText(text string) (c20Spec, bool) {
+	var s c20Spec
 	fs := strings.Fields(text)
 	if len(fs) != 5 {
 		return s, false
 	}
 	for k, f := range fs {
 		if f == "*" {
-			s.F[k] = cField{Star: true}
+			s.F[k] = c20Field{Star: true}
 			continue
 		}
 		for _, o := range strings.Split(f, ",") {
-			var it cItem
+			var it c20Item
 			var a, b, st int
 			switch {
 			case o == "L":
-				it = cItem{T: itLast}
+				it = c20Item{T: c20itLast}
 			case strings.HasSuffix(o, "L"):
 				fmt.Sscanf(o, "%dL", &a)
-				it = cItem{T: itLastW, A: a}
+				it = c20Item{T: c20itLastW, A: a}
 			case strings.Contains(o, "#"):
 				fmt.Sscanf(o, "%d#%d", &a, &b)
-				it = cItem{T: itNth, A: a, B: b}
+				it = c20Item{T: c20itNth, A: a, B: b}
 			case strings.HasPrefix(o, "*/"):
 				fmt.Sscanf(o, "*/%d", &st)
-				it = cItem{T: itStarStep, S: st}
+				it = c20Item{T: c20itStarStep, S: st}
 			case strings.Contains(o, "/"):
 				fmt.Sscanf(o, "%d-%d/%d", &a, &b, &st)
-				it = cItem{T: itRangeStep, A: a, B: b, S: st}
+				it = c20Item{T: c20itRangeStep, A: a, B: b, S: st}
 			case strings.Contains(o, "-"):
 				fmt.Sscanf(o, "%d-%d", &a, &b)
-				it = cItem{T: itRange, A: a, B: b}
+				it = c20Item{T: c20itRange, A: a, B: b}
 			default:
 				fmt.Sscanf(o, "%d", &a)
-				it = cItem{T: itNum, A: a}
+				it = c20Item{T: c20itNum, A: a}
 			}
 			s.F[k].Items = append(s.F[k].Items, it)
 		}
@@ -998,7 +998,7 @@ func c20parseText(text string) (cSpec, bool) {
 }
 
 // c20sigIsRunAt classifies a matcher violation (signatures of listed findings would be matched here)
-func c20sigIsRunAt(s cSpec, t time.Time) string {
+func c20sigIsRunAt(s c20Spec, t time.Time) string {
 	return "C20/isrunat"
 }
 
